@@ -161,6 +161,19 @@ def drivePure : List String → Option String
     | .ok l => "ok\t" ++ encPairs (cacheOf l)      -- what `_cache.items()` shows afterwards
     | .invalid => "invalid"
     | .unm => "unm"
+  | ["close", p, specs] => do
+    let pr ← prOf p
+    let items ← (if specs = "-" then some [] else (specs.splitOn "|").mapM fun item =>
+      match item.splitOn ";" with
+      | [k, name, v, wrapped, dflt] => do
+        let c ← classOf k
+        let name ← dec name
+        let v ← decVal v
+        let wrapped ← (if wrapped = "~" then some none else (decList wrapped).map some)
+        let dflt ← (if dflt = "~" then some none else (decVal dflt).map some)
+        pure ({ wrapped := wrapped, dfltSer := dflt.map (c.serialize pr), name := name, ser := c.serialize pr v } : Spec)
+      | _ => none)
+    pure (enc (closeText items))
   | ["cache", l] => (decPairs l).map fun l => encPairs (cacheOf l)
   | ["esc", n] => (dec n).map fun n => enc (escapeName n)
   | ["unesc", n] => (dec n).map fun n => encRes (unescapeName n)
